@@ -16,8 +16,8 @@ PROMPT = "laythe:> "
 
 
 def generate(r):
-    """entries: list of [text, ok]; files: extra module files"""
-    lets, fns, classes, objs, gfns, mods, closures, ghosts, pending = [], [], [], [], [], [], [], [], []
+    """entries: list of [text, ok] or [text, False, what the entry contributes to the one-file reference]; files: extra module files"""
+    lets, fns, classes, objs, gfns, mods, closures, ghosts, pending, setters = [], [], [], [], [], [], [], [], [], []
     entries = []
     files = {}
     n = r.randint(4, 18)
@@ -37,7 +37,11 @@ def generate(r):
             kinds += ["callc", "callc"]
         if lets:
             kinds += ["assign"]
-        kinds += ["ghost", "latefiber"]
+        kinds += ["ghost", "latefiber", "defthenraise"]
+        if lets:
+            kinds += ["setter"]
+        if setters:
+            kinds += ["callsetter", "callsetter"]
         if pending:
             kinds += ["collect", "collect"]
         if ghosts:
@@ -93,6 +97,25 @@ def generate(r):
         elif k == "fiber":
             entries.append(["fn w%d(ch, n) { for j in n.times() { ch <- [j, 'w']; } ch.close(); } let ch%d = chan(2); launch w%d(ch%d, %d); print('fib', (<- ch%d)[0], <- ch%d != nil);" % (
                 i, i, i, i, r.randint(2, 4), i, i), True])
+        elif k == "setter":
+            # a function of a later entry that assigns to a variable of an earlier entry
+            name = "st%d" % i
+            target = r.choice(lets)
+            form = r.choice(["fn %s() { %s = %s + 10; %s }", "fn %s() { %s += 3; %s + 0 }", "let %s = || { %s = %s * 2; %s };"])
+            entries.append([form % ((name,) + (target,) * (form.count("%s") - 1)), True])
+            setters.append((name, target))
+        elif k == "callsetter":
+            name, target = r.choice(setters)
+            entries.append(["print('set', %s(), %s);" % (name, target), True])
+        elif k == "defthenraise":
+            # an entry whose definitions take effect and which then raises: the definitions stay usable
+            name = "dr%d" % i
+            definition = "fn %s(o) { o.get() + o.add(1) }" % name if classes else "fn %s(o) { o + 1 }" % name
+            entries.append(["%s raise Error('late'); print('unreachable');" % definition, False, definition])
+            if classes:
+                gfns.append(name)
+            else:
+                fns.append(name)
         elif k == "latefiber":
             # a fiber launched by one entry and not run yet when the entry ends; a later entry communicates with it
             entries.append(["fn lw%d(ch, n) { for j in n.times() { ch <- j * %d; } } let lch%d = chan(2); launch lw%d(lch%d, 2);" % (
@@ -183,11 +206,12 @@ class C19(Check):
         entries = case["entries"]
         outcome = {"jobs": 0, "violations": [], "signatures": [], "counters": {}}
         counters = outcome["counters"]
-        session = {"id": "session", "mode": "repl", "files": dict(case["files"]), "stdin": [text + "\n" for text, _ in entries],
+        session = {"id": "session", "mode": "repl", "files": dict(case["files"]), "stdin": [entry[0] + "\n" for entry in entries],
                    "gc": case["gc"], "arena": case["arena"]}
         result = ctx.run(session)
         outcome["jobs"] += 1
-        reference_source = "\n".join(text for text, ok in entries if ok) + "\n"
+        # a failing entry contributes nothing, except for the part that took effect before it raised (third element)
+        reference_source = "\n".join(entry[0] if entry[1] else entry[2] for entry in entries if entry[1] or len(entry) > 2) + "\n"
         files = dict(case["files"])
         files[workloads.MAIN] = reference_source
         reference = ctx.run({"id": "file", "main": workloads.MAIN, "files": files, "gc": schedules.never()})
@@ -214,7 +238,7 @@ class C19(Check):
             if result["stdout"].count(PROMPT) != len(entries) + 1:
                 problems.append(("the session did not prompt once per entry", "%d prompts for %d entries" % (
                     result["stdout"].count(PROMPT), len(entries))))
-            failing = sum(1 for _, ok in entries if not ok)
+            failing = sum(1 for entry in entries if not entry[1])
             if failing and not result["stderr"].strip():
                 problems.append(("a failing entry produced no diagnostic", "%d failing entries, empty stderr" % failing))
             if not failing and result["stderr"].strip():
@@ -238,12 +262,12 @@ class C19(Check):
 
         # did an entry call into an earlier definition after an intervening entry
         cross = 0
-        for number, (text, ok) in enumerate(entries):
+        for number, (text, ok) in enumerate((entry[0], entry[1]) for entry in entries):
             if ok and (text.startswith("print('g'") or text.startswith("print('mod'") or text.startswith("print('c'")
                        or text.startswith("print('f'") or text.startswith("print('m'")):
                 cross += 1
         counters["entries"] = len(entries)
-        counters["failing_entries"] = sum(1 for _, ok in entries if not ok)
+        counters["failing_entries"] = sum(1 for entry in entries if not entry[1])
         counters["entries_calling_earlier_definitions"] = cross
         counters["collections_fired"] = result["fired_total"]
         counters["read_line_calls"] = result.get("read_lines", 0)
@@ -259,8 +283,8 @@ class C19(Check):
             if result["fired"] and case["gc"]["kind"] not in ("never", "native"):
                 explicit["gc"] = {"kind": "list", "points": result["fired"]}
             outcome["violations"].append({"clause": clause, "detail": detail + "\n--- session ---\n" + "\n".join(
-                ("   " if ok else "BAD ") + text for text, ok in entries), "case": copy.deepcopy(case), "explicit": explicit})
-        outcome["sample"] = {"session": [text for text, _ in entries][:8], "failing": [text for text, ok in entries if not ok][:3],
+                ("   " if entry[1] else "BAD ") + entry[0] for entry in entries), "case": copy.deepcopy(case), "explicit": explicit})
+        outcome["sample"] = {"session": [entry[0] for entry in entries][:8], "failing": [entry[0] for entry in entries if not entry[1]][:3],
                              "schedule": case["gc"]["kind"], "prefixes_enumerated": bool(case.get("prefixes"))}
         return outcome
 
